@@ -540,4 +540,87 @@ class SuppressSuite(Suite):
         return None
 
 
-SUITES = [MachineSuite(), SuppressSuite()]
+class InheritSuite(Suite):
+    """histories over a class hierarchy: a machine of class A is used first, then a machine of a class derived from A
+    that adds an initializer (e.g. `class B(board.PowerControl, A)`): every machine runs the initializers of ITS class,
+    each once, in class order -- whatever was entered before.  Oracle only."""
+    name = "inherit"
+    model_fn = None
+
+    def gen(self, tier, rng):
+        for order in (["A", "B"], ["B", "A"], ["A", "B", "A"], ["A", "A", "B", "C"], ["C", "A", "B"], ["B", "C", "B"]):
+            yield {"order": order}
+
+    def run(self, case):
+        log = []
+
+        def step(tag):
+            @contextlib.contextmanager
+            def cm(self):
+                log.append(tag + "+")
+                try:
+                    yield None
+                finally:
+                    log.append(tag + "-")
+            return cm
+
+        class Conn(connector.Connector):
+            @contextlib.contextmanager
+            def _connect(self):
+                with channel.NullChannel() as ch:
+                    yield ch
+
+            def clone(self):
+                raise NotImplementedError()
+
+        class Wait(machine.Initializer):
+            _init_machine = step("wait")
+
+        class Power(machine.Initializer):
+            _init_machine = step("power")
+
+        class Pre(machine.PreConnectInitializer):
+            _init_pre_connect = step("pre")
+
+        class Post(machine.PostShellInitializer):
+            _init_post_shell = step("post")
+
+        class A(Conn, Wait, shell.RawShell):
+            name = "A"
+
+        class B(Power, Pre, A):
+            name = "B"
+
+        class C(Post, B):
+            name = "C"
+
+        out = []
+        with contextlib.redirect_stdout(io.StringIO()):
+            for k in case["order"]:
+                del log[:]
+                with {"A": A, "B": B, "C": C}[k]():
+                    log.append("body")
+                out.append([k, list(log)])
+        return out
+
+    def oracle(self, case, obs):
+        want = {"A": ["wait+", "body", "wait-"],
+                "B": ["pre+", "power+", "wait+", "body", "wait-", "power-", "pre-"],
+                "C": ["pre+", "power+", "wait+", "post+", "body", "post-", "wait-", "power-", "pre-"]}
+        fails = []
+        for n, (k, log) in enumerate(obs):
+            if log != want[k]:
+                fails.append(f"machine #{n} of class {k} (after {[x for x, _ in obs[:n]]}) ran {log}; its class composition asks for {want[k]}")
+        return fails
+
+    def nontrivial(self, case, obs):
+        return len(set(case["order"])) > 1
+
+    def klass(self, case, obs):
+        return "-".join(case["order"])
+
+    def finding_key(self, case, obs, failure):
+        return None
+
+
+SUITES = [MachineSuite(), SuppressSuite(), InheritSuite()]
